@@ -86,7 +86,10 @@ def _s(rng, tmpl):
 
 def gen_loop(rng, depth=1):
     if depth == 1 and rng.random() < 0.45:
-        inner = {"k": "do", "head": "do i = 1, n",
+        inner = {"k": "do", "head": pick(rng, ["do i = 1, n", "do i = 1, n",
+                                               "do i = 1, n", "do i = 1, n, 8",
+                                               "do i = 1, n, k",
+                                               "do i = 2, n - 1"]),
                  "body": [line(_s(rng, pick(rng, LOOP2_STMTS)))
                           for _ in range(rng.randint(1, 3))]}
         outer_body = [inner]
@@ -94,7 +97,10 @@ def gen_loop(rng, depth=1):
             outer_body.insert(0, line(pick(rng, ["t = b(j)", "k = j"])))
         if rng.random() < 0.2:
             outer_body.append(line("b(j) = t"))
-        return {"k": "do", "head": "do j = 1, n", "body": outer_body}
+        return {"k": "do", "head": pick(rng, ["do j = 1, n", "do j = 1, n",
+                                              "do j = 1, n, 4",
+                                              "do j = 1, k"]),
+                "body": outer_body}
     body = []
     for _ in range(rng.randint(1, 4)):
         if rng.random() < 0.2:
